@@ -259,3 +259,7 @@ func VerifExpandedRaw(pk []byte) *ExpandedPublicKey {
 	copy(e.compressed[:], pk)
 	return e
 }
+
+// accessors for the cache package harness
+func VerifBatchLen(v *BatchVerifier) int         { return len(v.entries) }
+func VerifBatchAnyInvalid(v *BatchVerifier) bool { return v.anyInvalid }
